@@ -240,6 +240,8 @@ structure RecSt (track : Prop) (s0 s : State) (names loc : List WName) (o : Opti
   ownDen : ∀ n, on = some n → ∀ q, o = some q → Den s q n
   /-- the QNAME anchor is not touched -/
   qn : s.qname = s0.qname
+  /-- the pointer log is sound -/
+  log : PtrLogOK s
 
 theorem hvTrack_ext {s s' : State} {names : List WName} (h : HvTrack s names) (e : Ext s s')
     (hhv : s'.hv = s.hv) : HvTrack s' names := by
@@ -256,11 +258,13 @@ theorem recSt_step {track : Prop} {s0 s s' : State} {names loc : List WName} {o 
     {on : Option WName}
     (h : RecSt track s0 s names loc o on) (e : Ext s s') (hw : WInv s') (hhv : s'.hv = s.hv)
     (hrd : s'.mostRecentNameInRdata = s.mostRecentNameInRdata)
-    (hown : s'.mostRecentOwner = s.mostRecentOwner) (hqn : s'.qname = s.qname := by rfl) :
+    (hown : s'.mostRecentOwner = s.mostRecentOwner) (hqn : s'.qname = s.qname := by rfl)
+    (hgp : s'.gPtrs = s.gPtrs := by rfl) :
     RecSt track s0 s' names loc o on :=
   ⟨hw, Ext.trans h.ext e, fun t => hvTrack_ext (h.hv t) e hhv,
    fun n hn q hq => den_ext e (h.rd n hn q (by rw [← hrd]; exact hq)),
-   by rw [hown]; exact h.own, fun n hn q hq => den_ext e (h.ownDen n hn q hq), by rw [hqn]; exact h.qn⟩
+   by rw [hown]; exact h.own, fun n hn q hq => den_ext e (h.ownDen n hn q hq), by rw [hqn]; exact h.qn,
+   ptrLog_ext h.log e hgp⟩
 
 theorem sp_tryPush_rec {track : Prop} {s0 : State} {names loc : List WName} {o : Option Prior}
     {on : Option WName} (d : List UInt8) :
@@ -353,6 +357,13 @@ theorem ext_setRdata (s : State) (p : Option Prior) : Ext s { s with mostRecentN
 
 theorem ext_hvPush (s : State) (p : Option Nat) : Ext s (hvPush p s).2 := frame_hvPush p s
 
+theorem hvPush_gPtrs (s : State) (p : Option Nat) : (hvPush p s).2.gPtrs = s.gPtrs := by
+  unfold hvPush
+  simp only [M.modify_apply]
+  split
+  · split <;> rfl
+  · rfl
+
 theorem hvPush_fields (s : State) (p : Option Nat) :
     (hvPush p s).2.gLabels = s.gLabels ∧ (hvPush p s).2.octets = s.octets ∧
     (hvPush p s).2.cursor = s.cursor ∧ (hvPush p s).2.qname = s.qname ∧
@@ -415,7 +426,8 @@ theorem sp_nameComp {track : Prop} {s0 : State} {names loc : List WName} {o : Op
         refine ⟨hw5, Ext.trans h1.ext e15, fun t => ?_, ?_,
           by rw [hs', f5, ← hs4]; simp only []; rw [ho]; exact h1.own,
           fun m hm q hq' => den_ext e15 (h1.ownDen m hm q hq'),
-          by rw [hs', f4, ← hs4]; simp only []; rw [hq]; exact h1.qn⟩
+          by rw [hs', f4, ← hs4]; simp only []; rw [hq]; exact h1.qn,
+          ptrLog_ext (hs.log p rfl h1.log) (Ext.trans e24 e45) (by rw [hs', hvPush_gPtrs, ← hs4])⟩
         · have ht2 : HvTrack s4 names :=
             hvTrack_ext (h1.hv t) (Ext.trans hf e24) (by rw [← hs4]; exact hkv)
           rw [hs']
@@ -519,14 +531,15 @@ theorem recSt_patch {track : Prop} {s0 s s' : State} {names loc : List WName} {o
     (hst : ∀ p ls, StoredAt s p ls → StoredAt s' p ls) (e0 : Ext s0 s')
     (hcur : s'.cursor = s.cursor) (hav : s'.available = s.available) (hsz : s'.octets.size = s.octets.size)
     (hgl : s'.gLabels = s.gLabels) (hq : s'.qname = s.qname) (ho : s'.mostRecentOwner = s.mostRecentOwner)
-    (hr : s'.mostRecentNameInRdata = s.mostRecentNameInRdata) (hhv : s'.hv = s.hv) :
+    (hr : s'.mostRecentNameInRdata = s.mostRecentNameInRdata) (hhv : s'.hv = s.hv)
+    (hgp : s'.gPtrs = s.gPtrs) :
     RecSt track s0 s' names loc o on := by
   have w := h.winv
   refine ⟨⟨by rw [hcur]; exact w.c12, by rw [hcur, hav]; exact w.cur_av, by rw [hav, hsz]; exact w.av_size,
     by rw [hgl]; exact w.g12, ?_, by rw [hq]; exact anchorOK_of_stored hst w.qn,
     by rw [ho]; exact anchorOK_of_stored hst w.ow, by rw [hr]; exact anchorOK_of_stored hst w.rd⟩,
     e0, ?_, ?_, by rw [ho]; exact h.own, fun n hn q hq' => den_of_stored hst (h.ownDen n hn q hq'),
-    by rw [hq]; exact h.qn⟩
+    by rw [hq]; exact h.qn, ?_⟩
   · intro g hg
     rw [hgl] at hg
     obtain ⟨ls, hl⟩ := w.labs g hg
@@ -540,6 +553,10 @@ theorem recSt_patch {track : Prop} {s0 s s' : State} {names loc : List WName} {o
   · intro n hn q hq'
     rw [hr] at hq'
     exact den_of_stored hst (h.rd n hn q hq')
+  · intro x hx
+    rw [hgp] at hx
+    obtain ⟨h1, h2, h3, h4, h5, ls, h6⟩ := h.log x hx
+    exact ⟨h1, by rw [hcur]; exact h2, h3, h4, by rw [hgl]; exact h5, ls, hst _ _ h6⟩
 
 /-- writing the RDLENGTH field back does not disturb any stored name -/
 theorem storedAt_patch {s s2 : State} (hw : WInv s) (d : List UInt8) (hd : d.length = 2)
@@ -620,7 +637,8 @@ theorem sp_ownerBlock {track : Prop} {s0 : State} {names loc : List WName} {o : 
       have w := winv_ext (s' := { s2 with gCtx := NameCtx.none }) hw2 (by constructor <;> simp) rfl rfl rfl rfl
       refine ⟨p, ⟨w.c12, w.cur_av, w.av_size, w.g12, w.labs, w.qn, den_anchorOK hden, w.rd⟩,
         Ext.trans h1.ext e14, fun t => hvTrack_ext (h1.hv t) e14 hkv, (fun n hn => by cases hn), rfl, ?_,
-        by show s2.qname = s0.qname; rw [hq]; exact h1.qn⟩
+        by show s2.qname = s0.qname; rw [hq]; exact h1.qn,
+        ptrLog_ext (hs.log p rfl h1.log) e24 rfl⟩
       intro n hn q hq'
       cases hn
       exact den_ext e24 (hden q hq')
@@ -686,7 +704,7 @@ theorem sp_rdataBlock {track : Prop} {s0 : State} {names : List WName} {o : Opti
       refine ⟨by simp, fun a s' hh => ?_⟩
       cases hh
       refine recSt_patch h2 (fun p ls hst => storedAt_patch h.winv _ hlen hfr p ls hst) ?_ rfl rfl
-        (by simp) rfl rfl rfl rfl rfl
+        (by simp) rfl rfl rfl rfl rfl rfl
       have := ext_write_above h2.ext s.cursor (u16be ((s2.cursor - s.cursor - 2) % 65536)) h.ext.cur
       unfold write at this
       rw [if_pos (by rw [hlen, hsz2]; omega)] at this
